@@ -102,8 +102,17 @@ MaxLat(S) == IF S.proc.kind = "upd" THEN Max(S.par.lat, S.proc.lat) ELSE S.par.l
 
 (* Which event is the scheduled window [o.s, o.e] meant for?  The one whose expected centre is *)
 (* nearest (closer than half an interval).  Derived from time only.                            *)
+(* (evaluation only: on an established connection without transmit window and without pending   *)
+(* update the expected centre of event m is ref.t + (m - ref.evt) * interval, so only the events  *)
+(* next to (centre - ref.t) / interval can satisfy the condition - the same set, without         *)
+(* enumerating latency + 3 candidates)                                                            *)
+CandRange(S, o) ==
+    IF S.win = NoWin /\ S.proc.kind # "upd" /\ S.par.int > 0
+    THEN LET m0 == S.ref.evt + (((o.s + o.e) \div 2) - S.ref.t) \div (S.par.int * U)
+         IN  Max(S.last + 1, m0 - 2)..Min(S.last + MaxLat(S) + 3, m0 + 3)
+    ELSE (S.last + 1)..(S.last + MaxLat(S) + 3)
 Cand(S, o) ==
-    { m \in (S.last + 1)..(S.last + MaxLat(S) + 3) :
+    { m \in CandRange(S, o) :
         Abs((o.s + o.e) - (Lo(S, m) + Hi(S, m))) < MinInt(S) * U }
 
 (* Widening: a half width w is enough for an elapsed time t (multiple of U) if            *)
